@@ -145,6 +145,9 @@ class Adapter(EnvAdapter):
                 # reset only: what the generators hand out
                 c("mixed_resets", "mixed", 250, max_steps=0),
                 c("veasy_resets", "very-easy", 250, max_steps=0),
+                # the documented database format (0 empty, 1..9 digits) handed over in other integer dtypes
+                c("veasy_uint8_resets", "very-easy-uint8", 40, max_steps=0),
+                c("veasy_int32_resets", "very-easy-int32", 40, max_steps=0),
             ]
         out = [c("mixed", "mixed", 12, probe_every=4, probe_cap=96, policies=play),
                c("veasy", "very-easy", 20, probe_every=2, probe_cap=96, policies=play),
@@ -177,6 +180,8 @@ class Adapter(EnvAdapter):
             return jumanji.make("Sudoku-very-easy-v0")  # generator built by jumanji/__init__.py
         if gen == "dummy":
             return Sudoku(generator=DummyGenerator())
+        if gen in ("very-easy-uint8", "very-easy-int32"):
+            return Sudoku(generator=DatabaseGenerator(database=_database("very-easy").astype(gen.split("-")[-1])))
         if gen == "mixed-indexed":
             return Sudoku(generator=_indexed_generator(_database("mixed"), cfg.get("first", 0)))
         if gen == "very-easy-indexed":
